@@ -81,8 +81,12 @@ def node(draw, inp, depth, allow_pass=True):
 
 @st.composite
 def program(draw, max_depth=3):
-    ncol = draw(st.integers(1, 5))
-    names = draw(st.lists(st.sampled_from(["a", "b", "c", "d", "e", "x1", "x2", "age", "fare", "w"]), min_size=ncol, max_size=ncol, unique=True))
+    # mostly narrow tables; sometimes wide ones (two-digit column indexes) and names that collide with the
+    # "<name><counter>" suggestions pipeline2dot uses for intermediate columns
+    ncol = draw(st.one_of(st.integers(1, 5), st.integers(1, 5), st.integers(10, 13)))
+    pool = draw(st.sampled_from([["a", "b", "c", "d", "e", "x1", "x2", "age", "fare", "w", "u", "v", "y", "z"],
+                                 ["t", "t0", "t1", "t2", "a", "a0", "a1", "X1", "X11", "X10", "-v-0", "-v-1", "b", "b1"]]))
+    names = draw(st.lists(st.sampled_from(pool), min_size=ncol, max_size=ncol, unique=True))
     schema = draw(st.sampled_from(["frame", "array", "names"]))
     inp = ("frame", names) if schema in ("frame", "names") else ("array", ncol)
     root_kind = draw(st.sampled_from(["pipeline", "pipeline", "pipeline", "any", "predictor-only"]))
